@@ -98,3 +98,14 @@ def replay(ctx, payload):
         print("wf      :", w)
         return judge(t, impl, w)
     return replay_parse(ctx, payload, oracle)
+
+
+def still_fails(ctx, t):
+    import pyref
+    impl = pyref.parse_answer(t)
+    w = run_driver(["wf " + hx(t)])[0]
+    bad = judge(t, impl, w)
+    if not bad:
+        return False
+    v = {"input_hex": t.hex(), "what": bad}
+    return not any(matcher(f, v) for f in findings_for("C01") if f.get("status") == "known")
